@@ -220,9 +220,11 @@ pub struct Spec {
 
 impl Spec {
     pub fn path(&self, n: usize) -> String {
+        // Documented: an empty name is replaced by `<unknown>`.
+        let own = if self.nodes[n].name.is_empty() { "<unknown>".to_string() } else { self.nodes[n].name.clone() };
         match self.nodes[n].parent {
-            Some(p) => format!("{}.{}", self.path(p), self.nodes[n].name),
-            None => self.nodes[n].name.clone(),
+            Some(p) => format!("{}.{}", self.path(p), own),
+            None => own,
         }
     }
     pub fn drv_uid(&self, cmd_idx: usize) -> u64 {
